@@ -323,7 +323,7 @@ def rbf_stage(ctx, rrows):
             terms.append(t)
             origin.append((ri, name))
     ok, bad, logs = coq_mismatches(ctx.uid("rb"), RBF.IMPORTS, terms,
-                                   shard=max(20, len(terms) // NCPU + 1), scope="Z_scope",
+                                   shard=min(400, max(20, len(terms) // NCPU + 1)), scope="Z_scope",
                                    timeout=3000)
     if not ok:
         ctx.violation("correspondence_mismatch", "Coop.RbfExec (model evaluation failed)",
@@ -408,7 +408,9 @@ def run(ctx):
         "model of ReceiveClosingSigned abstracts the channel as 'CreateCloseProposal succeeds iff "
         "fee <= opener balance + credit' (n_afford); tied by the two-real-ChanClosers harness",
         "RBF model: ideal signatures (a signature is the descriptor it is on; CompleteCooperativeClose's "
-        "engine run accepts iff both signatures are on the caller's own tx); MuSig2 nonce plumbing, "
+        "engine run accepts iff both signatures are on the caller's own tx; a MuSig2 partial signature "
+        "replayed outside its signing session is recorded by the harness as a signature on nothing); "
+        "MuSig2 nonce plumbing, "
         "taproot/regular signature-type checks and the taproot shutdown-nonce check are not modelled "
         "(exercised by the harness on taproot channels)",
         "RBF model: lnwallet.ValidateUpfrontShutdown is an oracle (its answer is recorded per event); "
@@ -477,7 +479,7 @@ def run(ctx):
             terms.append(t)
             origin.append((ri, name))
     ok, bad, logs = coq_mismatches(ctx.uid(), IMPORTS, terms,
-                                   shard=max(50, len(terms) // NCPU + 1), scope="Z_scope",
+                                   shard=min(1200, max(50, len(terms) // NCPU + 1)), scope="Z_scope",
                                    timeout=3000)
     if not ok:
         ctx.violation("correspondence_mismatch", "Coop.Exec (model evaluation failed)",
